@@ -65,6 +65,8 @@ impl FeoxStore {
             if results.len() >= limit || entry.key().as_slice() > end_key {
                 break;
             }
+            #[cfg(feature = "verif")]
+            crate::verif::point("range_next", 0, 0);
 
             let value = {
                 let record = entry.value().load(&guard);
